@@ -5,6 +5,7 @@ package bufmodule
 import (
 	"context"
 
+	"github.com/bufbuild/buf/private/bufpkg/bufparse"
 	"github.com/bufbuild/buf/private/pkg/storage"
 	"github.com/bufbuild/buf/private/pkg/storage/storagemem"
 	"github.com/google/uuid"
@@ -79,5 +80,75 @@ func VerifLemma_C08F_ModuleDigestDeps() {
 		verifAssert(DigestEqual(d1, d2), "the digest ignores non-dependencies, module names and targeting when the dependency is unchanged")
 	} else {
 		verifAssert(!DigestEqual(d1, d2), "a changed byte of a dependency - also one that provides a well-known-type path - changes the importer's digest")
+	}
+}
+
+// ---- C08-F (remote): a remote module's b5 digest uses the dependency digests pinned by its commit ----
+
+// viRemoteDigest builds a ModuleSet of a *remote* module R (r.proto imports d/d.proto; its commit pins the dependency D
+// at the digest of a D whose LICENSE is pinnedLicense) and a workspace copy of D whose LICENSE is localLicense (the
+// module the import resolves to inside this ModuleSet), and returns R's b5 digest through the real Module.Digest.
+func viRemoteDigest(pinnedLicense, localLicense []byte, dIsLocal bool) Digest {
+	ctx := context.Background()
+	const dSrc = "syntax = \"proto3\";\npackage d;\nmessage D {}\n"
+	pinnedBucket, err := storagemem.NewReadBucket(map[string][]byte{"d/d.proto": []byte(dSrc), "LICENSE": pinnedLicense})
+	verifAssume(err == nil)
+	pinnedDigest, err := getB5DigestForBucketAndDepModuleKeys(ctx, pinnedBucket, nil)
+	if err != nil {
+		verifAssert(false, "digest of the pinned dependency content is computed")
+	}
+	dName, err := bufparse.NewFullName("buf.build", "acme", "d")
+	verifAssume(err == nil)
+	rName, err := bufparse.NewFullName("buf.build", "acme", "r")
+	verifAssume(err == nil)
+	dKey, err := NewModuleKey(dName, uuid.UUID{1}, func() (Digest, error) { return pinnedDigest, nil })
+	verifAssume(err == nil)
+	rBucket, err := storagemem.NewReadBucket(map[string][]byte{
+		"r.proto": []byte("syntax = \"proto3\";\npackage r;\nimport \"d/d.proto\";\nmessage R {}\n"),
+	})
+	verifAssume(err == nil)
+	dBucket, err := storagemem.NewReadBucket(map[string][]byte{"d/d.proto": []byte(dSrc), "LICENSE": localLicense})
+	verifAssume(err == nil)
+	none := func() (ObjectData, error) { return nil, nil }
+	r, err := newModule(ctx, func() (storage.ReadBucket, error) { return rBucket, nil },
+		"", "", rName, uuid.UUID{2}, false, false, none, none,
+		func() ([]ModuleKey, error) { return []ModuleKey{dKey}, nil }, nil, nil, "", false)
+	if err != nil {
+		verifAssert(false, "real remote module constructed")
+	}
+	dCommit := uuid.Nil
+	dBucketID := "d"
+	if !dIsLocal {
+		dCommit, dBucketID = uuid.UUID{3}, ""
+	}
+	d, err := newModule(ctx, func() (storage.ReadBucket, error) { return dBucket, nil },
+		dBucketID, "", dName, dCommit, true, dIsLocal, none, none,
+		func() ([]ModuleKey, error) { return nil, nil }, nil, nil, "", false)
+	if err != nil {
+		verifAssert(false, "real dependency module constructed")
+	}
+	if _, err := newModuleSet([]Module{r, d}); err != nil {
+		verifAssert(false, "module set is accepted")
+	}
+	digest, err := r.Digest(DigestTypeB5)
+	verifAssert(err == nil && digest != nil, "the b5 digest of a remote module is computed")
+	return digest
+}
+
+// VerifLemma_C08F_RemoteDigestPinned: the digest of a remote module is a function of its own files and of the
+// dependency digests pinned by its commit - not of whatever content the same dependency name resolves to in the
+// current workspace (a locally edited copy, or another commit): same pinned digest => same digest whatever the local
+// copy holds; different pinned digest => different digest.
+func VerifLemma_C08F_RemoteDigestPinned() {
+	p1, p2 := []byte{'x'}, verifNondetBytesN(1)
+	q1, q2 := []byte{'x'}, verifNondetBytesN(1)
+	dIsLocal := verifNondetBool()
+	d1 := viRemoteDigest(p1, q1, dIsLocal)
+	d2 := viRemoteDigest(p2, q2, dIsLocal)
+	verifCover("both remote digests computed")
+	if p1[0] == p2[0] {
+		verifAssert(DigestEqual(d1, d2), "a remote module's digest does not depend on the content its dependency resolves to in the workspace")
+	} else {
+		verifAssert(!DigestEqual(d1, d2), "a remote module's digest changes with the dependency digest pinned by its commit")
 	}
 }
